@@ -100,8 +100,9 @@ Definition cl_ok (ao : bool) (c : client) : Prop :=
   (ckind c = Normal -> live_phase (cphase c) = true -> counted c = true /\ gate c = false) /\
   (ao = true -> ckind c = Normal -> gate c = false -> pend c = true) /\
   (ao = false -> gate c = false /\ pend c = false) /\
-  (ckind c = Canc -> cphase c = Starting \/ cphase c = InTxn \/ cphase c = Gone) /\
-  (ckind c = Admin -> cphase c = Starting \/ cphase c = Idle \/ cphase c = Gone).
+  (ckind c = Canc -> cphase c = Starting \/ cphase c = Authed \/ cphase c = InTxn \/ cphase c = Gone) /\
+  (ckind c = Admin -> cphase c = Starting \/ cphase c = Authed \/ cphase c = Idle \/ cphase c = Gone) /\
+  (ckind c = Normal -> cphase c = Authed -> gate c = false).
 
 Definition clients_ok (st : state) : Prop := Forall (cl_ok (admin_only st)) (clients st).
 
@@ -201,6 +202,11 @@ Proof.
   - destruct (tmr st); try discriminate. destruct (exit_q st); fin Hs; exact Hok.
   - destruct (negb (main_ok st)); try discriminate. destruct (exit_q st); try discriminate. fin Hs. exact Hok.
   - destruct (negb (mid_sigint st) || wedged st); try discriminate. destruct (qcap st <=? length (queue st))%nat; fin Hs; exact Hok.
+  - (* Enter *)
+    destruct (nth_error (clients st) c) eqn:En; try discriminate.
+    pose proof (Forall_nth_error _ _ _ _ _ Hok En) as Hc.
+    destruct (cphase c0) eqn:Ep; try discriminate.
+    destruct (ckind c0) eqn:Ek; fin Hs; upd_ok Hok Hc; clear - Hc Ep Ek; destruct ao; crush_cl.
 Qed.
 
 (** * The counter *)
@@ -209,6 +215,12 @@ Definition counter_ok (st : state) : Prop :=
   total st + qsum (queue st) = ncounted (clients st) + leaked st /\ 0 <= leaked st.
 
 Lemma counted_false_of_starting : forall ao c, cl_ok ao c -> cphase c = Starting -> counted c = false.
+Proof.
+  intros ao c H Hp. destruct H as (H1 & _). destruct (counted c); auto.
+  destruct (H1 eq_refl) as (Hl & _). rewrite Hp in Hl. discriminate.
+Qed.
+
+Lemma counted_false_of_authed : forall ao c, cl_ok ao c -> cphase c = Authed -> counted c = false.
 Proof.
   intros ao c H Hp. destruct H as (H1 & _). destruct (counted c); auto.
   destruct (H1 eq_refl) as (Hl & _). rewrite Hp in Hl. discriminate.
@@ -257,6 +269,13 @@ Proof.
   - destruct (tmr st); try discriminate. destruct (exit_q st); fin Hs; split; auto.
   - destruct (negb (main_ok st)); try discriminate. destruct (exit_q st); try discriminate. fin Hs. split; auto.
   - destruct (negb (mid_sigint st) || wedged st); try discriminate. destruct (qcap st <=? length (queue st))%nat; fin Hs; unfold counter_ok; simpl; rewrite ?qsum_app; simpl; split; lia.
+  - destruct (nth_error (clients st) c) eqn:En; try discriminate.
+    pose proof (Forall_nth_error _ _ _ _ _ Hok En) as Hcl.
+    destruct (cphase c0) eqn:Ep; try discriminate.
+    pose proof (counted_false_of_authed _ _ Hcl Ep) as Hcf.
+    destruct (ckind c0); fin Hs;
+      unfold counter_ok, with_log, send, with_queue, put, with_clients; simpl;
+      rewrite ?qsum_app, (ncounted_upd _ _ _ _ En); simpl; rewrite Hcf; unfold b2z; simpl; split; lia.
 Qed.
 
 (** * Control state: timer, exit channel, wedge *)
@@ -279,7 +298,7 @@ Definition ctl_ok (st : state) : Prop :=
 (** client events leave the control state alone and at most append to the queue *)
 Definition is_client_event (e : event) : bool :=
   match e with
-  | AuthDone _ _ | TxnStart _ | Stmt _ | TxnEnd _ | Poll _ | Leave _ _ => true
+  | AuthDone _ _ | TxnStart _ | Stmt _ | TxnEnd _ | Poll _ | Leave _ _ | Enter _ => true
   | _ => false
   end.
 
@@ -292,7 +311,7 @@ Proof.
   destruct e; try discriminate He.
   - destruct (nth_error (clients st) c); try discriminate. destruct (cphase c0); try discriminate.
     destruct (ckind c0); [destruct (gate c0); [| destruct ok] | destruct ok | destruct ok]; fin Hs;
-      unfold ctl; simpl; rewrite ?Ex; split; auto; right; eexists; reflexivity.
+      unfold ctl; simpl; rewrite ?Ex; split; auto.
   - destruct (nth_error (clients st) c); try discriminate. destruct (ckind c0); try discriminate.
     destruct (cphase c0); try discriminate; fin Hs; unfold ctl; simpl; rewrite ?Ex; auto.
   - destruct (nth_error (clients st) c); try discriminate.
@@ -306,6 +325,8 @@ Proof.
   - destruct (nth_error (clients st) c); try discriminate. destruct (live_phase (cphase c0)); try discriminate.
     fin Hs. unfold ctl, depart; simpl. destruct (counted c0); [destruct h |]; simpl; rewrite ?Ex; split; auto;
       right; eexists; reflexivity.
+  - destruct (nth_error (clients st) c); try discriminate. destruct (cphase c0); try discriminate.
+    destruct (ckind c0); fin Hs; unfold ctl; simpl; rewrite ?Ex; split; auto; right; eexists; reflexivity.
 Qed.
 
 Ltac cfields := cbn [admin_only total tmr exit_q wedged exited queue clients tzero qcap leaked zero_sends log mid_sigint] in *.
@@ -418,7 +439,7 @@ Proof. intros st H. destruct (reachable_Inv _ H) as (_ & (Hc & _) & _). lia. Qed
 
 Definition actor (e : event) : option nat :=
   match e with
-  | AuthDone i _ | TxnStart i | Stmt i | TxnEnd i | Poll i | Leave i _ => Some i
+  | AuthDone i _ | TxnStart i | Stmt i | TxnEnd i | Poll i | Leave i _ | Enter i => Some i
   | _ => None
   end.
 
@@ -469,6 +490,9 @@ Proof.
   - destruct (negb (main_ok st)); try discriminate. destruct (exit_q st); try discriminate. fin Hs.
     eauto using same_but_pend_refl.
   - destruct (negb (mid_sigint st) || wedged st); try discriminate. destruct (qcap st <=? length (queue st))%nat; fin Hs; eauto using same_but_pend_refl.
+  - assert (c0 <> i) by congruence.
+    destruct (nth_error (clients st) c0); try discriminate. destruct (cphase c1); try discriminate.
+    destruct (ckind c1); fin Hs; unf; apply nth_error_upd_frame; auto.
 Qed.
 
 (** the log grows by at most one entry per step, and the entry is about the acting client *)
@@ -505,6 +529,8 @@ Proof.
   - destruct (negb (main_ok st)); try discriminate. destruct (exit_q st); try discriminate. fin Hs.
     right. eexists. split; reflexivity.
   - destruct (negb (mid_sigint st) || wedged st); try discriminate. destruct (qcap st <=? length (queue st))%nat; fin Hs; auto.
+  - destruct (nth_error (clients st) c); try discriminate. destruct (cphase c0); try discriminate.
+    destruct (ckind c0); fin Hs; unf; auto.
 Qed.
 
 (** * c17_refuse_new *)
@@ -548,6 +574,7 @@ Proof.
     + rewrite Hk in Hs. destruct Hp as [Hp | Hp]; rewrite Hp in Hs; discriminate.
     + destruct Hp as [Hp | Hp]; rewrite Hp in Hs; discriminate.
     + destruct Hp as [Hp | Hp]; rewrite Hp in Hs; simpl in Hs; discriminate.
+    + destruct Hp as [Hp | Hp]; rewrite Hp in Hs; discriminate.
   - destruct (step_frame _ _ _ _ _ Hs Hn Ha) as (c' & Hn' & (E1 & E2 & E3 & E4 & E5)).
     split; [| split].
     + exists c'. rewrite E1, E3, E4, E5. auto.
@@ -599,7 +626,8 @@ Lemma admin_admitted : forall st m st1, exited st = None -> main_ok st = true ->
   step st (Accept Admin m) = Some st1 ->
   let i := length (clients st) in
   exists st2, step st1 (AuthDone i true) = Some st2 /\ log st2 = OAdmitted i :: log st1 /\
-    exists st3, step st2 (Stmt i) = Some st3 /\ log st3 = OServed i :: log st2.
+    exists st2', step st2 (Enter i) = Some st2' /\ log st2' = log st2 /\ queue st2' = queue st2 /\
+    exists st3, step st2' (Stmt i) = Some st3 /\ log st3 = OServed i :: log st2'.
 Proof.
   intros st m st1 Hx Hw Hs i. unfold step in Hs. rewrite Hx, Hw in Hs.
   simpl in Hs. fin Hs.
@@ -609,8 +637,14 @@ Proof.
   eexists. split.
   { unfold step. unf. rewrite Hx, Hn. simpl. reflexivity. }
   unf. split; auto.
+  pose proof (nth_error_upd_same _ _ _ (set_phase (mkC Admin m (admin_only st) Starting false false) Authed) _ Hn) as Hn2.
   eexists. split.
-  { unfold step. unf. rewrite ?Hx. rewrite (nth_error_upd_same _ _ _ _ _ Hn). simpl. reflexivity. }
+  { unfold step. unf. rewrite ?Hx. rewrite Hn2. simpl. reflexivity. }
+  unf. split; auto. split; auto.
+  eexists. split.
+  { unfold step. unf. rewrite ?Hx.
+    match goal with |- context [nth_error (upd_nth ?l i ?v) i] =>
+      rewrite (nth_error_upd_same _ l i v _ Hn2) end. simpl. reflexivity. }
   reflexivity.
 Qed.
 
@@ -679,6 +713,8 @@ Proof.
   - destruct (tmr st); try discriminate. destruct (exit_q st); fin Hs; cbn [log] in Hl; exfalso; eapply Hne; eauto.
   - destruct (negb (main_ok st)); try discriminate. destruct (exit_q st); try discriminate. fin Hs. unf. inversion Hl.
   - destruct (negb (mid_sigint st) || wedged st); try discriminate. destruct (qcap st <=? length (queue st))%nat; fin Hs; cbn [log] in Hl; exfalso; eapply Hne; eauto.
+  - destruct (nth_error (clients st) c); try discriminate. destruct (cphase c0); try discriminate.
+    destruct (ckind c0); fin Hs; unf; exfalso; eapply Hne; eauto.
 Qed.
 
 (** * c17_txn_finishes *)
@@ -725,6 +761,7 @@ Proof.
       destruct (ckind c); discriminate.
     + unfold step in Hs. destruct (exited st); try discriminate. rewrite Hn, Hp in Hs.
       destruct (ckind c); try discriminate; fin Hs; unf; left; exists c; auto.
+    + unfold step in Hs. destruct (exited st); try discriminate. rewrite Hn, Hp in Hs. discriminate.
     + unfold step in Hs. destruct (exited st); try discriminate. rewrite Hn, Hp in Hs. discriminate.
   - left. destruct (step_frame _ _ _ _ _ Hs Hn Ha) as (c' & Hn' & (_ & _ & _ & E4 & E5)).
     exists c'. rewrite E4, E5. auto.
@@ -1024,7 +1061,7 @@ Proof.
   - fin Hs. cbn. auto.
 Qed.
 
-Definition admits (e : event) : bool := match e with AuthDone _ true => true | _ => false end.
+Definition admits (e : event) : bool := match e with Enter _ => true | _ => false end.
 
 Lemma leak_preserved : forall st e st', step st e = Some st' -> 0 < leaked st -> no_pos (queue st) = true ->
   admits e = false -> 0 < leaked st' /\ no_pos (queue st') = true.
@@ -1034,9 +1071,8 @@ Proof.
   - destruct (negb (main_ok st)); try discriminate. destruct (admin_only st); fin Hs; auto.
   - destruct (negb (main_ok st)); try discriminate. fin Hs. auto.
   - destruct (negb (main_ok st)); try discriminate. fin Hs. auto.
-  - destruct ok; try discriminate He.
-    destruct (nth_error (clients st) c); try discriminate. destruct (cphase c0); try discriminate.
-    destruct (ckind c0); [destruct (gate c0) | |]; fin Hs; unf; auto.
+  - destruct (nth_error (clients st) c); try discriminate. destruct (cphase c0); try discriminate.
+    destruct (ckind c0); [destruct (gate c0); [| destruct ok] | destruct ok | destruct ok]; fin Hs; unf; auto.
   - destruct (nth_error (clients st) c); try discriminate. destruct (ckind c0); try discriminate.
     destruct (cphase c0); try discriminate; fin Hs; unf; auto.
   - destruct (nth_error (clients st) c); try discriminate.
@@ -1055,6 +1091,7 @@ Proof.
   - destruct (negb (main_ok st)); try discriminate. destruct (exit_q st); try discriminate. fin Hs. auto.
   - destruct (negb (mid_sigint st) || wedged st); try discriminate. destruct (qcap st <=? length (queue st))%nat; fin Hs; auto.
     cbn. rewrite no_pos_app, Hnp. auto.
+  - discriminate He.
 Qed.
 
 Lemma zero_sends_step : forall st e st', step st e = Some st' -> e <> DrainDeliver -> zero_sends st' = zero_sends st.
@@ -1183,18 +1220,18 @@ Proof. intros st H. apply tzero_no_timer. apply reachable_Inv. exact H. Qed.
 (** W1: a client's -1 is still in flight when SIGINT arrives; it brings the count to zero (exit
     message #1), then the queued 0 is delivered before the exit arm is polled. *)
 Definition wedge_inflight : list event :=
-  [Accept Normal TxnMode; AuthDone 0 true; DrainDeliver; Leave 0 Clean; Sigint; SigintQ; DrainDeliver; DrainDeliver; TimerFire].
+  [Accept Normal TxnMode; AuthDone 0 true; Enter 0; DrainDeliver; Leave 0 Clean; Sigint; SigintQ; DrainDeliver; DrainDeliver; TimerFire].
 
 (** W1': ONE idle client and nothing else.  SIGINT: the broadcast goes out, the client (on another
     worker thread) is told to go and sends its -1 before the SIGINT arm has queued its 0; -1 makes the
     count zero (exit message #1), the 0 is delivered before the exit arm is polled.  Reproduced on the
     real binary (about 1 run in 40 on a loaded machine). *)
 Definition wedge_overtake : list event :=
-  [Accept Normal TxnMode; AuthDone 0 true; DrainDeliver; Sigint; Poll 0; SigintQ; DrainDeliver; DrainDeliver; TimerFire].
+  [Accept Normal TxnMode; AuthDone 0 true; Enter 0; DrainDeliver; Sigint; Poll 0; SigintQ; DrainDeliver; DrainDeliver; TimerFire].
 
 (** W2: nobody connected; after the zero a cancel request (+1, -1) is delivered first. *)
 Definition wedge_cancel : list event :=
-  [Sigint; SigintQ; DrainDeliver; Accept Canc TxnMode; AuthDone 0 true; Leave 0 Clean; DrainDeliver; DrainDeliver; TimerFire].
+  [Sigint; SigintQ; DrainDeliver; Accept Canc TxnMode; AuthDone 0 true; Enter 0; Leave 0 Clean; DrainDeliver; DrainDeliver; TimerFire].
 
 Lemma wedge_witness : forall tr, (tr = wedge_inflight \/ tr = wedge_cancel \/ tr = wedge_overtake) ->
   exists st, run (init false 2048) tr = Some st /\ wedged st = true /\ all_gone st = true /\ tmr st = TBlocked /\
@@ -1235,7 +1272,7 @@ Proof. exists wedge_overtake. vm_compute. reflexivity. Qed.
     [drain_tx.send(0).await] then waits for a receiver that is the suspended loop itself.  The
     broadcast has been sent, the timer task has not been spawned: no timeout either. *)
 Definition cancel_burst (n : nat) : list event :=
-  flat_map (fun i => [Accept Canc TxnMode; AuthDone i true; Leave i Clean]) (seq 0 n).
+  flat_map (fun i => [Accept Canc TxnMode; AuthDone i true; Enter i; Leave i Clean]) (seq 0 n).
 
 (* the witness is computed for a channel of 64 slots (32 requests); the schedule is the same for 2048 *)
 Definition wedge_full_cap : nat := 64.
@@ -1288,6 +1325,8 @@ Proof.
   * destruct (nth_error (clients st) c); try discriminate. destruct (live_phase (cphase c0)); try discriminate.
     fin Es. unfold depart. destruct (counted c0); [destruct h |]; unf; auto.
   * rewrite Ht in Es. discriminate.
+  * destruct (nth_error (clients st) c); try discriminate. destruct (cphase c0); try discriminate.
+    destruct (ckind c0); fin Es; unf; auto.
 Qed.
 
 Lemma wedged_no_timer : forall tr st st', wedged st = true -> tmr st = TNone -> run st tr = Some st' -> tmr st' = TNone.
